@@ -459,7 +459,7 @@ func (P *Prog) modComps(pkg *types.Package, m string) ([]string, error) {
 			return nil, err
 		}
 		if _, ok := t.Underlying().(*types.Struct); ok {
-			return leafComps(t, nil, t), nil
+			return leafComps(t), nil
 		}
 		return []string{"P$" + typeKey(t)}, nil
 	case strings.HasPrefix(m, "G."):
@@ -485,8 +485,10 @@ func (P *Prog) modComps(pkg *types.Package, m string) ([]string, error) {
 		}
 		// resolve remaining as field path; if ends at a struct, all leaves
 		cur := t
+		owner := t
 		names := parts[n:]
 		for _, fnm := range names {
+			owner = cur
 			st, ok := cur.Underlying().(*types.Struct)
 			if !ok {
 				return nil, fmt.Errorf("modifies %s: %s is not a struct", m, cur)
@@ -503,9 +505,9 @@ func (P *Prog) modComps(pkg *types.Package, m string) ([]string, error) {
 			}
 		}
 		if _, ok := cur.Underlying().(*types.Struct); ok {
-			return leafComps(t, names, cur), nil
+			return leafComps(cur), nil
 		}
-		return []string{fieldComp(t, names)}, nil
+		return []string{fieldComp(owner, names[len(names)-1])}, nil
 	}
 	return nil, fmt.Errorf("cannot resolve modifies item %q", m)
 }
@@ -733,7 +735,16 @@ func (fx *FnCtx) env(st *State) *Env {
 func (fx *FnCtx) typeAssume(v Term, t types.Type, st *State) Term {
 	base := fx.P.sorts.typeAssume(v, t)
 	switch u := t.Underlying().(type) {
-	case *types.Pointer, *types.Map, *types.Signature:
+	case *types.Pointer:
+		r := and(base, app("Bool", "<", v, st.next))
+		if stt, ok := u.Elem().Underlying().(*types.Struct); ok && !fx.P.embeddable(u.Elem()) && stt.NumFields() > 0 {
+			// pointers to structs that are never embedded by value denote whole objects:
+			// aligned to the allocation step and carrying their struct type
+			r = and(r, eq(app("Int", "mod", v, Term{allocStep, "Int"}), Term{"0", "Int"}),
+				implies(not(eq(v, Term{"0", "Int"})), eq(app("Int", "objtype", v), intLit(int64(fx.P.sorts.typeID(u.Elem()))))))
+		}
+		return r
+	case *types.Map, *types.Signature:
 		return and(base, app("Bool", "<", v, st.next))
 	case *types.Slice:
 		return and(base, app("Bool", "<", app("Int", "s_arr", v), st.next))
